@@ -107,3 +107,39 @@ func init() {
 	register(&Scenario{Prop: "C01", Name: "c01/3callers", Quick: []Bound{{1, 0}}, Thorough: []Bound{{2, 0}}, Body: c01Body(3, basicModes[:5])})
 	register(&Scenario{Prop: "C01", Name: "c01/two-conns", Quick: []Bound{{1, 0}, {2, 0}}, Thorough: []Bound{{3, 0}}, Body: c01TwoConns})
 }
+
+// frame sizes around the pooled buffer size: two concurrent callers whose request and reply
+// frames are 3..12 bytes longer than a body of 44..73 bytes (the buffers hold 64), so every frame
+// length from below to above the buffer capacity — including exactly the capacity — occurs in
+// both directions, with a second frame right behind the first.
+func c01Boundary(modes []modeT) func(x *X) {
+	return func(x *X) {
+		m := modes[x.Choose(len(modes))]
+		size := 44 + x.Choose(30)
+		double := x.Choose(2) == 1
+		f := newFixture(m.so, m.co)
+		flags := byte(0)
+		if double {
+			flags = fDouble
+		}
+		a := newUcall(1, flags, size, formCall)
+		b := newUcall(2, flags, size, formGo)
+		a.spawn(f.conn)
+		b.spawn(f.conn)
+		vs.Quiesce()
+		out := c01Check(x, []*ucall{a, b}, "frame-boundary")
+		if !a.ret || !b.ret || a.err != nil || b.err != nil {
+			x.Fail("C01/call-failed/frame-boundary", "two %d-byte calls (mode %s): returned=%v/%v err=%v/%v", size, m.name, a.ret, b.ret, a.err, b.err)
+		}
+		c := newUcall(3, flags, size, formCall)
+		c.issue(f.conn)
+		out += c01Check(x, []*ucall{c}, "frame-boundary")
+		x.Outcome("%s size=%d double=%v%s", m.name, size, double, out)
+		f.conn.Close()
+		vs.Quiesce()
+	}
+}
+
+func init() {
+	register(&Scenario{Prop: "C01", Name: "c01/frame-boundary", Quick: []Bound{{0, 0}, {1, 0}}, Thorough: []Bound{{2, 0}}, Body: c01Boundary(basicModes), BudgetQ: 20})
+}
